@@ -186,6 +186,12 @@ fn process_dir(
                 writeln!(&mut stderr(), "Error: {err}").unwrap();
             }
             Ok(entry) => {
+                // WalkDir silently lowers min_depth to max_depth when
+                // min_depth > max_depth; nothing is in range in that case.
+                if entry.depth() < config.min_depth {
+                    continue;
+                }
+
                 let mut matcher_io = matchers::MatcherIO::new(deps);
 
                 let new_dir = entry.path().parent().map(|x| x.to_path_buf());
